@@ -28,18 +28,20 @@ class Lock:
     def __exit__(self, *a):
         fcntl.flock(self.f, fcntl.LOCK_UN); self.f.close()
 
-def _prune(prefix, keep):
-    for f in glob.glob(os.path.join(CACHE, prefix + '*')):
-        if f != keep and not f.endswith('.lock'):
-            try: os.remove(f)
-            except OSError: pass
+def _prune(prefix, keep, n_keep=6):
+    """bound the cache: keep the newest few entries (another check may be running on a different tree right now)"""
+    fs = [f for f in glob.glob(os.path.join(CACHE, prefix + '*')) if f != keep and not f.endswith('.lock') and '.tmp' not in f]
+    fs.sort(key=lambda f: os.path.getmtime(f) if os.path.exists(f) else 0, reverse=True)
+    for f in fs[n_keep:]:
+        try: os.remove(f)
+        except OSError: pass
 
 def mir_dump():
     """returns (path, seconds, cached)"""
     h = src_hash()
     out = os.path.join(CACHE, 'seed-%s.mir' % h)
     with Lock('mir'):
-        if os.path.exists(out) and os.path.getsize(out) > 1000000:
+        if os.path.exists(out) and os.path.getsize(out) > 1000000 and os.path.exists(os.path.join(CACHE, 'parser-%s.rs' % h)):
             return out, 0.0, True
         t0 = time.time()
         tgt = os.path.join(CACHE, 'mir-target')
@@ -55,13 +57,21 @@ def mir_dump():
             for d in glob.glob(os.path.join(tgt, 'debug', '.fingerprint', 'seed-*')): shutil.rmtree(d, ignore_errors=True)
         else:
             raise BuildError('MIR dump empty')
+        # the generated parser of exactly this tree, kept beside the dump (the shared target dir is overwritten by the next build)
+        c = sorted(glob.glob(os.path.join(tgt, 'debug', 'build', 'seed-*', 'out', 'parser.rs')), key=os.path.getmtime)
+        if c:
+            ptmp = os.path.join(CACHE, 'parser-%s.rs.tmp%d' % (h, os.getpid())); shutil.copy2(c[-1], ptmp); os.rename(ptmp, os.path.join(CACHE, 'parser-%s.rs' % h))
         tmp = out + '.tmp%d' % os.getpid()
         open(tmp, 'wb').write(p.stdout); os.rename(tmp, out)
-        _prune('seed-', out)
+        _prune('seed-', out); _prune('parser-', os.path.join(CACHE, 'parser-%s.rs' % h))
         return out, time.time() - t0, False
 
 def parser_rs():
     """path of the LALRPOP-generated parser.rs for the current grammar (produced by build.rs during mir_dump())"""
+    own = os.path.join(CACHE, 'parser-%s.rs' % src_hash())
+    if os.path.exists(own): return own
+    mir_dump()
+    if os.path.exists(own): return own
     tgt = os.path.join(CACHE, 'mir-target')
     c = sorted(glob.glob(os.path.join(tgt, 'debug', 'build', 'seed-*', 'out', 'parser.rs')), key=os.path.getmtime)
     if not c: raise BuildError('generated parser.rs not found')
